@@ -292,7 +292,7 @@ PeerEof(e) ==
 Drain ==
   /\ pend # <<>>
   /\ LET ev == Head(pend) IN
-       /\ allOk' = (allOk /\ \A c \in Clauses(ev) : Applies(c) => Holds(c))
+       /\ allOk' = (allOk /\ AllHold(Clauses(ev)))
        /\ Upd(ev)
        /\ tid' = tid /\ l' = l
   /\ pend' = Tail(pend)
@@ -334,7 +334,7 @@ Quiescent == pend = <<>> /\ ~ENABLED Callback
 FinalEv(e) == [a |-> "Final", e |-> e, n |-> "", t |-> 0,
                v |-> [state |-> "", idle |-> SessIdle(EndState(e)), txq |-> <<>>, rxq |-> <<>>, rxbuf |-> 0,
                       secure |-> FALSE, closed |-> ~ph[e].open, recvd |-> 0, sent |-> 0]]
-QuiescentOK == Quiescent => \A e \in Ends : \A c \in Clauses(FinalEv(e)) : Applies(c) => Holds(c)
+QuiescentOK == Quiescent => \A e \in Ends : AllHold(Clauses(FinalEv(e)))
 
 \* for error traces (cfg: ALIAS Dbg): which terminal clauses fail, and the essentials of the state
 FailedFinal == UNION {{<<e, c.name>> : c \in {d \in Clauses(FinalEv(e)) : Applies(d) /\ ~Holds(d)}} : e \in Ends}
